@@ -105,7 +105,12 @@ Print Assumptions C05_loader_terminates_either.
    chain of flows in progress is reset per flow, the foreign root per direction
    - fix-F-C05l), the second pass finds what the first found: the two-pass
    procedure as coded and the single pass [build_all] give the same verdict
-   (and the same flows), for any way of building one flow. *)
+   (and the same flows), for any way of building one flow.
+   Audit 2: the statement is INDEPENDENT of [build] - it holds for any function
+   whatever, so it says nothing about flowBuilder's code: its content is the
+   purity premise itself (building a flow is a function of the configuration,
+   props `trusted` / `assumptions`), under which a retry cannot help.  No suite
+   evaluates [build_two_pass]. *)
 Theorem C05_retry_pass_irrelevant : forall build fcs,
   build_two_pass build fcs = build_all_by build fcs.
 Proof. exact two_pass_is_single. Qed.
@@ -497,7 +502,11 @@ Print Assumptions C05_file_loader_terminates.
 (* A flow file that holds no document (DocNone) or cannot be decoded (DocErr):
    the configuration is REJECTED - at the flow-file stage, or before it by the
    quota loader - whatever the other files are.  Nothing is built, nothing
-   runs: the outcome carries no flows. *)
+   runs: the outcome carries no flows.
+   VALIDATION MODE ONLY (audit 2, item 8): [load_files] is the loader as the
+   standalone validator / validate_flows / the load_flows dry run drive it.  At
+   gateway start-up such a file is skipped when another flow file could be
+   read - see C05_startup_* at the end of this section. *)
 Theorem C05_docless_flow_file_rejected : forall pq pp pf pd d f,
   In f (d_flows d) ->
   decode_file flowcfg empty_flow pf f = DocNone \/ decode_file flowcfg empty_flow pf f = DocErr ->
@@ -598,7 +607,39 @@ Example C05_files_witness :
        (DIR [] [] (map Rendered (cf_flows wg_config)) [Bytes [91; 93; 10]]) = OReject 5.
 Proof. vm_compute. repeat split; try reflexivity. discriminate. Qed.
 
-(* The seeded decoder (C05-8): only BLANK input gets an empty object; a file
+(* ... and with a quota (audit 2): a flow whose Limiter names the quota the
+   configuration defines is accepted next to a usable rendered quota file - a
+   non-degenerate instance of the hypothesis of C05_load_files_conservative -
+   and rejected at processor creation (stage 2) without one.  A quota file
+   given as BYTES that the scanner leaves to the decoder proper counts as "no
+   quota defined" in [quota_defined] even if the decoder ([fun _ => Doc (QD true
+   true)] here) turns it into a usable document: for such files the model is
+   stricter than the code (stage 2 instead of acceptance); the `files` suite
+   never claims them (props `trusted`). *)
+Definition wq_flow : flowcfg :=
+  FC 7 true [PD 1 false 4 [2]]
+     [CN ep_stream_start (ep_p 1 0); CN (ep_p 1 3) ep_stream_end; CN (ep_p 1 4) ep_stream_end]
+     [CN ep_stream_start ep_stream_end].
+
+Example C05_files_quota_witness :
+  forallb (fun q => qd_quotas q && qd_valid q) [QD true true] = true
+  /\ (exists fs, fs <> [] /\
+        load_files err_q err_p err_f err_d
+          (DIR (map Rendered [QD true true]) [] (map Rendered [wq_flow]) []) = OAccept fs
+        /\ load (CF [wq_flow] true) = Accept fs)
+  /\ load_files err_q err_p err_f err_d (DIR [] [] (map Rendered [wq_flow]) []) = OReject 2
+  /\ load_files (fun _ => Doc (QD true true)) err_p err_f err_d
+       (DIR [Bytes [113; 58; 32; 49; 10]] [] (map Rendered [wq_flow]) []) = OReject 2.
+Proof.
+  split; [reflexivity|]. split.
+  - eexists. split; [|split; vm_compute; reflexivity]. discriminate.
+  - split; vm_compute; reflexivity.
+Qed.
+
+(* The seeded decoder (C05-8): only BLANK input gets an empty object - decided
+   BEFORE decoding, as in the seed (bytes.TrimSpace first; audit 2: so also for
+   a blank file with a tab, last conjunct of C05_nil_decoder_sites, which the
+   decoder proper - here one that fails - is never asked about); a file
    that holds no document otherwise leaves the nil pointer to the callers, all
    of which dereference it.  "Never panics" fails in each of the four
    directories - while a blank file is still rejected with an error. *)
@@ -619,7 +660,10 @@ Example C05_nil_decoder_sites :
   /\ load_files_nil err_q err_p err_f err_d (DIR [] [] [] [Bytes [126; 10]]) = OPanic 5
   /\ load_files_nil err_q err_p err_f err_d (DIR [] [] [Bytes [32; 10; 10]] []) = OReject 1
   /\ load_files_nil err_q err_p err_f err_d (DIR [] [] [Bytes []] []) = OReject 1
-  /\ load_files err_q err_p err_f err_d (DIR [] [] [Bytes comment_file] []) = OReject 1.
+  /\ load_files err_q err_p err_f err_d (DIR [] [] [Bytes comment_file] []) = OReject 1
+  /\ scan [9; 10] = SOther
+  /\ unmarshal flowcfg empty_flow err_f false (Bytes [9; 10]) = DObj empty_flow
+  /\ unmarshal flowcfg empty_flow err_f true (Bytes [9; 10]) = DError.
 Proof. vm_compute. repeat split; reflexivity. Qed.
 
 (* without fix-F-C05m an empty list entry in a path-parameter file is a panic *)
@@ -632,3 +676,71 @@ Proof.
   apply (H err_q err_p err_f err_d (DIR [] [Rendered (PP true)] [] []) 7). vm_compute. reflexivity.
 Qed.
 Print Assumptions C05_unguarded_path_params_refuted.
+
+(* ---- the gateway's START-UP mode (audit 2, item 8) ------------------------- *)
+
+(* [load_files] is the VALIDATION-mode loader.  [load_files_startup] (Decode.v,
+   Section Startup) is NewStream().Initialize(): a flow file that cannot be used
+   is skipped with a warning when at least one flow file could be read
+   (streams.go:267-277).  No suite evaluates it; the statements below bound how
+   far it can be from [load_files]: it never panics and always answers, it
+   differs from validation mode ONLY on configurations the validator rejects at
+   the flow-file stage, and what it accepts is still [load] on flows each
+   decoded from one of the files - so C05_transaction_safe* apply to it too. *)
+Theorem C05_startup_loader_never_panics : forall pq pp pf pd d s,
+  load_files_startup pq pp pf pd d <> OPanic s /\ load_files_startup pq pp pf pd d <> OFuel.
+Proof.
+  intros. split; [apply load_files_startup_never_panics|apply load_files_startup_no_fuel].
+Qed.
+Print Assumptions C05_startup_loader_never_panics.
+
+Theorem C05_startup_differs_only_where_validator_rejects_flow_files : forall pq pp pf pd d,
+  load_files pq pp pf pd d = OReject 1
+  \/ load_files_startup pq pp pf pd d = load_files pq pp pf pd d.
+Proof. exact startup_differs_only_on_flow_file_rejections. Qed.
+Print Assumptions C05_startup_differs_only_where_validator_rejects_flow_files.
+
+Theorem C05_startup_accept_is_load : forall pq pp pf pd d fl,
+  load_files_startup pq pp pf pd d = OAccept fl ->
+  exists l, load (CF l (quota_defined (d_quotas d))) = Accept fl
+            /\ forall fc, In fc l ->
+                 exists f, In f (d_flows d) /\ decode_file flowcfg empty_flow pf f = Doc fc.
+Proof. intros pq pp pf pd d fl H. exact (startup_accept_is_load pq pp pf pd d fl H). Qed.
+Print Assumptions C05_startup_accept_is_load.
+
+(* the difference is real: the good configuration next to a comment-only third
+   flow file is REJECTED by the validator and LOADED (without that file) at
+   start-up - so C05_docless_flow_file_rejected does not hold for start-up;
+   a comment-only file alone, or next to a duplicate name, is rejected in both
+   modes; a document-less quota file rejects in both *)
+Definition C05_startup_rejects_docless_flow_files : Prop :=
+  forall pq pp pf pd d f,
+    In f (d_flows d) -> decode_file flowcfg empty_flow pf f = DocNone ->
+    exists s, load_files_startup pq pp pf pd d = OReject s.
+
+Theorem C05_startup_rejects_docless_flow_files_refuted : ~ C05_startup_rejects_docless_flow_files.
+Proof.
+  intros H.
+  destruct (H err_q err_p err_f err_d
+              (DIR [] [] (map Rendered (cf_flows wg_config) ++ [Bytes comment_file]) [])
+              (Bytes comment_file)) as [s Hs].
+  - cbn [d_flows]. apply in_or_app. right. left. reflexivity.
+  - vm_compute. reflexivity.
+  - vm_compute in Hs. discriminate Hs.
+Qed.
+Print Assumptions C05_startup_rejects_docless_flow_files_refuted.
+
+Example C05_startup_witness :
+  load_files_startup err_q err_p err_f err_d
+    (DIR [] [] (map Rendered (cf_flows wg_config) ++ [Bytes comment_file]) []) = OAccept wg_flows
+  /\ load_files err_q err_p err_f err_d
+       (DIR [] [] (map Rendered (cf_flows wg_config) ++ [Bytes comment_file]) []) = OReject 1
+  /\ wg_flows <> []
+  /\ load_files_startup err_q err_p err_f err_d (DIR [] [] [Bytes comment_file] []) = OReject 1
+  /\ load_files_startup err_q err_p err_f err_d
+       (DIR [] [] (Bytes comment_file :: map Rendered (cf_flows wg_config ++ cf_flows wg_config)) [])
+     = OReject 1
+  /\ load_files_startup err_q err_p err_f err_d
+       (DIR [Bytes [126]] [] (map Rendered (cf_flows wg_config)) []) = OReject 4
+  /\ load_files_startup err_q err_p err_f err_d (DIR [] [] [] []) = OAccept [].
+Proof. vm_compute. repeat split; try reflexivity. discriminate. Qed.
